@@ -1,7 +1,7 @@
 (* C18 — property theorems.  Statements closed by [exact] + Print Assumptions. *)
 From Coq Require Import Ascii String.
 From Coq Require Import List ZArith Bool Arith Sorted.
-From Martian.C18 Require Import Gen_Shape Model Proofs Proofs_Validate Proofs_Actions.
+From Martian.C18 Require Import Gen_Shape Model Proofs Proofs_Validate Proofs_Loop.
 Import ListNotations.
 Open Scope Z_scope.
 
@@ -34,44 +34,86 @@ Theorem C18_invalid_range_unshaped : forall v acts thr m rs hl lt i,
 Proof. exact open_ctx_bad_range. Qed.
 Print Assumptions C18_invalid_range_unshaped.
 
-(* Close at k, halts and bandwidth changes, no panic: BOUNDED (finite sweep by
-   computation): every list of <= 2 actions over kinds {halt, close, bandwidth}
-   x offsets {0,1,2,4} x counts {1,-1}, range starts 0..2, head lengths {0,2},
-   bodies of 0/3/6 bytes, every two-way write split, four grant streams. *)
-Theorem C18_close_at_k_bounded : forall acts rs hl n ws g,
-  In acts action_lists -> In rs [0; 1; 2] -> In hl [0; 2] -> In n [0; 3; 6]%nat ->
-  In ws (splits (payload n)) -> In g grant_streams ->
-  let s0 := fst (open_ctx true acts [] true rs hl None 0) in
-  let evs := snd (fst (run g s0 ws)) in
-  let r := snd (run g s0 ws) in
-  r <> RPanic /\ r <> RFuel /\
-  close_spec acts rs hl (concat ws) (emitted evs) (is_closed r) /\
-  (forall a, In a acts -> kind a <> KClose -> eff_count a <> 0 -> rs <= abyte a ->
-     hl + (abyte a - rs) < Zlength (emitted evs) ->
-     has_stamp (hl + (abyte a - rs)) (ev_of (kind a)) (stamps 0 evs) = true).
-Proof.
-  intros acts rs hl n ws g H1 H2 H3 H4 H5 H6.
-  exact (run_ok_spec acts rs hl ws g (sweep2_forall acts rs hl n ws g H1 H2 H3 H4 H5 H6)).
-Qed.
-Print Assumptions C18_close_at_k_bounded.
+(* ---- the shaped write loop: ALL action lists sorted by byte (what validation
+   produces: C18_accepted_actions_sorted), all range starts > -1, head lengths
+   >= 0, sequences of writes, grant streams.  Grants are assumed POSITIVE:
+   FillThrottleLocked calls fn only when fill < capacity, and the Go loop
+   terminates only then; under that assumption the fuel given by [write]
+   suffices, so RFuel (and RPanic) are excluded by the statement. ---- *)
 
-(* same, three actions sharing offsets, every three-way split of a 6-byte body *)
-Theorem C18_halt_sleeps_bounded : forall acts rs hl ws g,
-  In acts action_lists3 -> In rs [0; 2] -> In hl [0; 1] ->
-  In ws (splits3 (payload 6)) -> In g grant_streams ->
-  let s0 := fst (open_ctx true acts [] true rs hl None 0) in
-  let evs := snd (fst (run g s0 ws)) in
-  let r := snd (run g s0 ws) in
+(* no panic, no out-of-fuel; the close clause in the oracle's form; a forced
+   close is the last event and there is at most one *)
+Theorem C18_loop_safe_and_close_spec : forall acts0 thr rs hl lt i g ws s' evs r,
+  StronglySorted by_byte acts0 -> 0 <= hl -> rs > -1 -> (forall k, 0 < g k) ->
+  run g (shaped_start acts0 thr rs hl lt i) ws = (s', evs, r) ->
   r <> RPanic /\ r <> RFuel /\
-  close_spec acts rs hl (concat ws) (emitted evs) (is_closed r) /\
-  (forall a, In a acts -> kind a <> KClose -> eff_count a <> 0 -> rs <= abyte a ->
-     hl + (abyte a - rs) < Zlength (emitted evs) ->
-     has_stamp (hl + (abyte a - rs)) (ev_of (kind a)) (stamps 0 evs) = true).
+  close_spec acts0 rs hl (concat ws) (emitted evs) (is_closed r) /\
+  (is_closed r = true -> exists pre', evs = pre' ++ [ForceClose] /\ ~ In ForceClose pre') /\
+  (is_closed r = false -> ~ In ForceClose evs).
+Proof. exact loop_safe_and_close. Qed.
+Print Assumptions C18_loop_safe_and_close_spec.
+
+(* Close at k: a close action c at byte k >= range start with count <> 0 and no
+   live close before it in the list; more than head + (k - rs) bytes written.
+   Then the bytes delivered are exactly the first hl + (k - rs) bytes written
+   (head ++ body[0 .. k - rs)), the result is the force-close error, ForceClose
+   is the last event and occurs once -- for every write split and grant stream. *)
+Theorem C18_close_at_k : forall acts0 thr rs hl lt i g ws s' evs r l1 c l2,
+  StronglySorted by_byte acts0 -> 0 <= hl -> rs > -1 -> (forall k, 0 < g k) ->
+  acts0 = l1 ++ c :: l2 -> kind c = KClose -> count c <> 0 -> rs <= abyte c ->
+  Forall (not_live_close rs) l1 ->
+  hl + (abyte c - rs) < Zlength (concat ws) ->
+  run g (shaped_start acts0 thr rs hl lt i) ws = (s', evs, r) ->
+  emitted evs = firstn (Z.to_nat (hl + (abyte c - rs))) (concat ws) /\
+  (exists n, r = RClosed n) /\
+  exists pre', evs = pre' ++ [ForceClose] /\ ~ In ForceClose pre'.
+Proof. exact close_at_k. Qed.
+Print Assumptions C18_close_at_k.
+
+(* Halts: a halt of d ms with count <> 0 at byte a >= range start, a byte beyond
+   it delivered: Sleep d occurs in the trace with exactly hl + (a - rs) bytes
+   delivered before it, i.e. before any later byte. *)
+Theorem C18_halt_sleeps : forall acts0 thr rs hl lt i g ws s' evs r a d,
+  StronglySorted by_byte acts0 -> 0 <= hl -> rs > -1 -> (forall k, 0 < g k) ->
+  run g (shaped_start acts0 thr rs hl lt i) ws = (s', evs, r) ->
+  In a acts0 -> kind a = KHalt d -> count a <> 0 -> rs <= abyte a ->
+  hl + (abyte a - rs) < Zlength (emitted evs) ->
+  exists before after, evs = before ++ Sleep d :: after /\
+    Zlength (emitted before) = hl + (abyte a - rs).
+Proof. exact halt_sleeps. Qed.
+Print Assumptions C18_halt_sleeps.
+
+(* the same for every non-close action (bandwidth changes: SetBw b) *)
+Theorem C18_action_at_offset : forall acts0 thr rs hl lt i g ws s' evs r a,
+  StronglySorted by_byte acts0 -> 0 <= hl -> rs > -1 -> (forall k, 0 < g k) ->
+  run g (shaped_start acts0 thr rs hl lt i) ws = (s', evs, r) ->
+  In a acts0 -> kind a <> KClose -> eff_count a <> 0 -> rs <= abyte a ->
+  hl + (abyte a - rs) < Zlength (emitted evs) ->
+  exists before after, evs = before ++ ev_of (kind a) :: after /\
+    Zlength (emitted before) = hl + (abyte a - rs).
+Proof. exact action_at_offset. Qed.
+Print Assumptions C18_action_at_offset.
+
+(* Counts: afterwards the action list is the initial one with every action that
+   was passed and lies at or after the range start decremented (Halt / Close:
+   count - 1 when positive; see Gen_Shape.dec_count); the actions not yet passed
+   are untouched and none of them has been crossed. *)
+Theorem C18_counts_decremented : forall acts0 thr rs hl lt i g ws s' evs r,
+  StronglySorted by_byte acts0 -> 0 <= hl -> rs > -1 -> (forall k, 0 < g k) ->
+  run g (shaped_start acts0 thr rs hl lt i) ws = (s', evs, r) ->
+  exists done todo, acts0 = done ++ todo /\
+    acts s' = map (fun a => if abyte a <? rs then a else dec a) done ++ todo /\
+    (forall a, In a todo -> Zlength (emitted evs) <= hl + (abyte a - rs)).
+Proof. exact counts_after_run. Qed.
+Print Assumptions C18_counts_decremented.
+
+(* the hypothesis on the action list is what validation guarantees *)
+Theorem C18_accepted_actions_sorted : forall sc sh,
+  validate_shape sc = Some sh -> StronglySorted by_byte (sh_acts sh).
 Proof.
-  intros acts rs hl ws g H1 H2 H3 H5 H6.
-  exact (run_ok_spec acts rs hl ws g (sweep3_forall acts rs hl ws g H1 H2 H3 H5 H6)).
+  intros sc sh H. apply sorted_by_byte_strong. exact (so_sorted sc sh (validate_shape_ok sc sh H)).
 Qed.
-Print Assumptions C18_halt_sleeps_bounded.
+Print Assumptions C18_accepted_actions_sorted.
 
 (* Rate: through a bucket of capacity c, with d drains and no SetCapacity in
    between, at most (d + 1) * c bytes pass (so n bytes need >= ceil(n/c) - 1
@@ -184,6 +226,8 @@ Theorem C18_oracle_rate : forall b n el tol,
 Proof. exact ok_rate_iff. Qed.
 Print Assumptions C18_oracle_rate.
 
+Definition payload (n : nat) : list ascii := map (fun i => ascii_of_nat (65 + i)) (seq 0 n).
+
 (* Non-vacuity: a head of 2 bytes, halt at 3, bandwidth change at 4, close at 5,
    range start 1, three writes, grants of 2 bytes. *)
 Example C18_example :
@@ -195,6 +239,20 @@ Example C18_example :
      Emit [ascii_of_nat 69]; SetBw 7; Emit [ascii_of_nat 70]; ForceClose]
   /\ snd (run (fun _ => 2) s0 ws) = RClosed 1.
 Proof. vm_compute. split; reflexivity. Qed.
+
+(* the hypotheses of C18_close_at_k / C18_halt_sleeps are met by that configuration *)
+Example C18_example_hypotheses :
+  let acts := [mkAct (KHalt 9) 3 1; mkAct (KBw 7) 4 (-1); mkAct KClose 5 1] in
+  StronglySorted by_byte acts /\
+  acts = [mkAct (KHalt 9) 3 1; mkAct (KBw 7) 4 (-1)] ++ mkAct KClose 5 1 :: [] /\
+  Forall (not_live_close 1) [mkAct (KHalt 9) 3 1; mkAct (KBw 7) 4 (-1)] /\
+  2 + (5 - 1) < Zlength (payload 9) /\ (forall k : nat, 0 < (fun _ : nat => 2) k).
+Proof.
+  cbn zeta. split.
+  - repeat constructor; unfold by_byte; cbn; discriminate.
+  - split; [reflexivity|]. split; [|split; [reflexivity | intros; reflexivity]].
+    constructor; [right; right; discriminate|]. constructor; [right; right; discriminate | constructor].
+Qed.
 
 Example C18_example_validate :
   match validate (mkCfg None [mkSC (list_ascii_of_string "a") true 1000
